@@ -20,6 +20,7 @@ RULE = (
     "symmetry groups (not read from the code); a result is accepted iff its vertex set is within Hausdorff distance 1e-5 of the "
     "reference; success is demanded wherever the reference vertices are separated by more than 1e-4; corner solids by vertex/face "
     "counts.  Uniform families: unit volume (certified exact hull), centroid at the origin, all edges equal, vertex counts.  "
+    "Also: parameters as Python / numpy integers; for every family the same request three times while the caller resizes and moves the shape it was given (the family must hand out a pristine, different object).  "
     "non-trivial = parameter point off the corners / n > 3."
 )
 ASSUMPTIONS = ["'dense grid plus random points' replaced by the complete 1/16 grid", "reference vertex enumeration in floats with the family's plane normals generated independently; min |det| of plane triples is a constant of each family so no vertex is lost"]
